@@ -195,7 +195,13 @@ SpaceRows == <<
 >>
 
 \* grid based operators (Plain, grids written by the harness) ---------------------
-GridF  == [PlaneF EXCEPT !.kout = "geo", !.lim = TRUE, !.ins = <<PGrid>>, !.out = <<PFar>>]
+\* the rim of the half-cell margin (53.5..56.5 N, 9.5..12.5 E), a third of an arc second inside it on each
+\* side: the first look-up succeeds, the inverse iteration may then wander off the grid (the shifts
+\* are arc seconds) - whatever happens there, the tuple is counted or it is NaN
+GridRim == << <<"11d", "53.5001d", "10", "2020">>, <<"11d", "56.4999d", "10", "2020">>,
+              <<"9.5001d", "55d", "10", "2020">>, <<"12.4999d", "55d", "10", "2020">>,
+              <<"12.4999d", "53.5001d", "10", "2020">>, <<"9.5001d", "56.4999d", "10", "2020">> >>
+GridF  == [PlaneF EXCEPT !.kout = "geo", !.lim = TRUE, !.ins = <<PGrid>>, !.out = <<PFar>>, !.edge = GridRim]
 GeoidF == [GridF EXCEPT !.rd = {1, 2, 3}, !.wr = {3}, !.dep = D4({}, {}, {1, 2, 3}, {})]
 DefoF  == [SpaceF EXCEPT !.lim = TRUE, !.ins = <<XGrid>>, !.out = <<XFar>>]
 Nul(d) == [d EXCEPT !.nul = d.out, !.out = <<>>]
